@@ -413,7 +413,7 @@ def run_c07(ctx):
             k = rnd_py.choice(['null', 'afonly', 'tei'])
             vs.append({'t': 'insert', 'at': at, 'k': k, 'pid': rnd_py.choice(pids)})
         for pid in pids:
-            vs.append({'t': 'corrupt', 'pid': pid, 'mode': rnd_py.choice(['dropall', 'dropsome', 'garbage', 'tei'])})
+            vs.append({'t': 'corrupt', 'pid': pid, 'mode': rnd_py.choice(['dropall', 'dropsome', 'garbage', 'tei', 'badaf', 'badaf'])})
         s['variants'] = vs
         s['kind'] = 'merge'
         scs.append(s)
